@@ -1,3 +1,4 @@
+import ChfVerif.Lemmas.ChargingNotify
 import ChfVerif.Lemmas.ChargingStep
 import ChfVerif.Lemmas.ChargingRecords
 import ChfVerif.Lemmas.LockDiscipline
@@ -227,5 +228,25 @@ theorem C12_recharge (guard : SplitGuard) (s : State) (info ueId rgStr : Bytes) 
     taken on a session map that a create or release is changing, nor be outdated when the request acts on it. -/
 theorem C12_state_access_under_lock :
     Chf.LockDiscipline.stateAccessOK Chf.Gen.fnFacts Chf.Gen.callFacts = true := by decide
+
+/-- "… to the notification URI the subscriber's consumer registered", for every history: once a consumer of the subscriber has
+    registered an address, the subscriber is known with a registered address after ANY further operations (creates with or
+    without an address of their own, refused creates, updates, releases, recharges, credits of any subscriber) - so by
+    `C12_recharge` every later recharge of the subscriber is answered 204 with exactly one notification -/
+theorem C12_address_stays_registered (guard : SplitGuard) (s : State) (ops : List Op) (supi : Bytes) (u : Ue)
+    (hu : findUe s.ues supi = some u) (hreg : u.notifyUri = true) :
+    ∃ u', findUe (run guard s ops).ues supi = some u' ∧ u'.notifyUri = true :=
+  registered_run guard ops s supi u hu hreg
+
+/-- … and the recharge that follows such a history -/
+theorem C12_recharge_after_any_history (guard : SplitGuard) (s : State) (ops : List Op) (supi rgStr : Bytes) (rg : Int) (u : Ue)
+    (hu : findUe s.ues supi = some u) (hreg : u.notifyUri = true)
+    (hsp : splitUnderscore (supi ++ [95] ++ rgStr) = [supi, rgStr]) (hrg : parseInt32 rgStr = some rg) :
+    (step guard (run guard s ops) (.recharge (supi ++ [95] ++ rgStr))).2.status = 204 ∧
+    (step guard (run guard s ops) (.recharge (supi ++ [95] ++ rgStr))).2.notif = [(supi, rg)] := by
+  obtain ⟨u', h1, h2⟩ := C12_address_stays_registered guard s ops supi u hu hreg
+  have h := C12_recharge guard (run guard s ops) (supi ++ [95] ++ rgStr) supi rgStr rg u' hsp hrg h1 h2
+  rw [findUe_supi h1] at h
+  exact h
 
 end Chf.Props.C12
